@@ -61,6 +61,139 @@ fn probes() -> Vec<(&'static str, Case)> {
     ]
 }
 
+/// Two tables linked by a FOREIGN KEY with a referential action: the action changes the CHILD
+/// table behind the statement's back, so the child's indexes must be maintained there too.
+/// Direct oracle only (the Lean table model has one table): after every statement the index
+/// structures of BOTH tables equal a rebuild from their scan().
+fn run_fk_case(script: &[String], rep: &mut Report, label: &str) {
+    let mut db = Db::new();
+    let mut changed = 0u64;
+    let mut child_changed_by_parent_stmt = 0u64;
+    for (k, sql) in script.iter().enumerate() {
+        let before_child = db.scan("CH");
+        let before_parent = db.scan("P");
+        let out = db.exec(sql);
+        if out.is_panic() {
+            rep.fail(FailKind::Oracle, None, "engine panicked (foreign-key history)", &format!("{};\n-- {}", script[..=k].join(";\n"), out.brief()));
+            break;
+        }
+        if !out.is_ok() {
+            rep.count(&format!("fk_stmt_error_{}", out.err_class().unwrap_or("?")));
+        }
+        if db.scan("CH") != before_child || db.scan("P") != before_parent {
+            changed += 1;
+        }
+        let upper = sql.to_uppercase();
+        if db.scan("CH") != before_child && (upper.starts_with("DELETE FROM P") || upper.starts_with("UPDATE P")) {
+            child_changed_by_parent_stmt += 1;
+        }
+        let mut bad = false;
+        for t in ["P", "CH"] {
+            let (Some(Ok(obs)), Some(rb)) = (observe(&db, t), rebuild_from_scan(&db, t)) else { continue };
+            if obs != rb {
+                rep.fail(
+                    FailKind::Oracle,
+                    None,
+                    &format!("index structures of table {} differ from a rebuild after a statement of a foreign-key history ({})", t, label),
+                    &format!("{};\n-- table {} accessors:\n{}\n-- rebuild from scan():\n{}", script[..=k].join(";\n"), t, obs.text(), rb.text()),
+                );
+                bad = true;
+            }
+        }
+        if bad {
+            break;
+        }
+    }
+    rep.case(&script.join(";"), changed >= 2 && child_changed_by_parent_stmt >= 1);
+    rep.add("fk_child_changes_by_referential_action", child_changed_by_parent_stmt);
+    rep.count("fk_cases");
+}
+
+fn gen_fk_script(r: &mut Rng) -> Vec<String> {
+    let action = *r.pick(&[
+        "ON DELETE CASCADE",
+        "ON DELETE CASCADE",
+        "ON DELETE SET NULL",
+        "ON DELETE CASCADE ON UPDATE CASCADE",
+        "ON DELETE SET NULL ON UPDATE CASCADE",
+    ]);
+    let mut s = vec![
+        "CREATE TABLE p (id INT PRIMARY KEY, v INT)".to_string(),
+        format!("CREATE TABLE ch (id INT PRIMARY KEY, pid INT, w INT, FOREIGN KEY (pid) REFERENCES p(id) {})", action),
+    ];
+    let idx = ["CREATE INDEX chp ON ch (pid)", "CREATE INDEX chw ON ch (w)", "CREATE INDEX chpw ON ch (pid, w)", "CREATE UNIQUE INDEX chu ON ch (id, w)", "CREATE INDEX pv ON p (v)"];
+    let mut pending: Vec<&str> = idx.iter().filter(|_| r.chance(2, 3)).cloned().collect();
+    if pending.is_empty() {
+        pending.push(idx[0]);
+    }
+    for id in 1..=r.range(2, 5) {
+        s.push(format!("INSERT INTO p VALUES ({}, {})", id, r.range(0, 3)));
+    }
+    let mut next_c = 100;
+    let n = r.range(8, 22);
+    for i in 0..n {
+        if !pending.is_empty() && (i < 2 || r.chance(1, 5)) {
+            s.push(pending.remove(0).to_string());
+            continue;
+        }
+        let w = r.below(100);
+        let st = if w < 20 {
+            format!("INSERT INTO p VALUES ({}, {})", r.range(1, 6), r.range(0, 3))
+        } else if w < 50 {
+            next_c += 1;
+            let pid = if r.chance(1, 8) { "NULL".to_string() } else { r.range(1, 6).to_string() };
+            format!("INSERT INTO ch VALUES ({}, {}, {})", next_c, pid, r.range(0, 3))
+        } else if w < 65 {
+            format!("DELETE FROM p WHERE id = {}", r.range(1, 6))
+        } else if w < 72 {
+            format!("DELETE FROM p WHERE v = {}", r.range(0, 3))
+        } else if w < 80 {
+            format!("UPDATE p SET id = id + 10 WHERE id = {}", r.range(1, 6))
+        } else if w < 86 {
+            format!("UPDATE ch SET w = {} WHERE pid = {}", r.range(0, 3), r.range(1, 6))
+        } else if w < 90 {
+            format!("DELETE FROM ch WHERE w = {}", r.range(0, 3))
+        } else if w < 93 {
+            "BEGIN".to_string()
+        } else if w < 95 {
+            "SAVEPOINT a".to_string()
+        } else if w < 97 {
+            "ROLLBACK TO SAVEPOINT a".to_string()
+        } else if w < 99 {
+            "ROLLBACK".to_string()
+        } else {
+            "COMMIT".to_string()
+        };
+        s.push(st);
+    }
+    s
+}
+
+fn fk_probes() -> Vec<(&'static str, Vec<String>)> {
+    let base = |action: &str, tail: &[&str]| -> Vec<String> {
+        let mut v = vec![
+            "CREATE TABLE p (id INT PRIMARY KEY, v INT)".to_string(),
+            format!("CREATE TABLE ch (id INT PRIMARY KEY, pid INT, w INT, FOREIGN KEY (pid) REFERENCES p(id) {})", action),
+            "CREATE INDEX chp ON ch (pid)".into(),
+            "CREATE INDEX chw ON ch (w)".into(),
+            "CREATE INDEX pv ON p (v)".into(),
+            "INSERT INTO p VALUES (1, 1)".into(),
+            "INSERT INTO p VALUES (2, 2)".into(),
+            "INSERT INTO ch VALUES (10, 1, 5)".into(),
+            "INSERT INTO ch VALUES (11, 2, 5)".into(),
+            "INSERT INTO ch VALUES (12, 1, 6)".into(),
+        ];
+        v.extend(tail.iter().map(|s| s.to_string()));
+        v
+    };
+    vec![
+        ("on-delete-cascade", base("ON DELETE CASCADE", &["DELETE FROM p WHERE id = 1", "INSERT INTO ch VALUES (13, 2, 6)", "DELETE FROM p WHERE v = 2"])),
+        ("on-delete-set-null", base("ON DELETE SET NULL", &["DELETE FROM p WHERE id = 1", "INSERT INTO ch VALUES (13, 2, 6)"])),
+        ("on-update-cascade", base("ON DELETE CASCADE ON UPDATE CASCADE", &["UPDATE p SET id = 7 WHERE id = 1", "DELETE FROM p WHERE id = 7"])),
+        ("cascade-inside-savepoint", base("ON DELETE CASCADE", &["BEGIN", "SAVEPOINT a", "DELETE FROM p WHERE id = 1", "ROLLBACK TO SAVEPOINT a", "DELETE FROM p WHERE id = 2", "ROLLBACK"])),
+    ]
+}
+
 fn main() {
     engine::silence_panics();
     let args = Args::parse("C15");
@@ -79,7 +212,17 @@ fn main() {
         run_case(&c, &mut model, &mut rep, name);
         rep.count("probe_cases");
     }
+    for (name, sc) in fk_probes() {
+        run_fk_case(&sc, &mut rep, name);
+        rep.count("probe_cases");
+    }
     let mut rng = Rng::new(args.seed);
+    let n_fk = args.n(150, 6000);
+    for _ in 0..n_fk {
+        let mut r = rng.fork();
+        let sc = gen_fk_script(&mut r);
+        run_fk_case(&sc, &mut rep, "generated");
+    }
     let n = args.n(700, 30000);
     let cfg = GenCfg { txn_weight: 10, savepoint_weight: 10, index_ddl_in_txn: true, len_lo: 6, len_hi: 24 };
     for i in 0..n {
